@@ -33,12 +33,12 @@ func cmpKeys(order.Which) func(a, b zed.Value) int {
 type hOp struct {
 	Kind   string `json:"kind"`
 	Branch string `json:"branch,omitempty"`
-	Batch  int    `json:"batch,omitempty"`  // load: index into the batch alphabet
-	Obj    []int  `json:"obj,omitempty"`    // indices into the branch's canonical object list
-	Pred   string `json:"pred,omitempty"`   // deletewhere
-	Vec    bool   `json:"vec,omitempty"`    // compact with vectors
-	Name   string `json:"name,omitempty"`   // createbranch: new name; merge: child
-	At     int    `json:"at,omitempty"`     // createbranch: index into branch chain, -1 tip, -2 nil; revert: index into chain
+	Batch  int    `json:"batch,omitempty"` // load: index into the batch alphabet
+	Obj    []int  `json:"obj,omitempty"`   // indices into the branch's canonical object list
+	Pred   string `json:"pred,omitempty"`  // deletewhere
+	Vec    bool   `json:"vec,omitempty"`   // compact with vectors
+	Name   string `json:"name,omitempty"`  // createbranch: new name; merge: child
+	At     int    `json:"at,omitempty"`    // createbranch: index into branch chain, -1 tip, -2 nil; revert: index into chain
 }
 
 func (o hOp) String() string {
@@ -94,19 +94,19 @@ type hViolation struct {
 }
 
 type hResult struct {
-	Config      string
-	States      int
-	Transitions int
-	Depth       int
-	MaxDepth    int
-	Complete    bool
-	Queries     int
+	Config           string
+	States           int
+	Transitions      int
+	Depth            int
+	MaxDepth         int
+	Complete         bool
+	Queries          int
 	OldCommitQueries int
 	ObjectsAudited   int
-	Violations  []hViolation
-	Samples     []string
-	OpKinds     map[string]int
-	ErrOps      int
+	Violations       []hViolation
+	Samples          []string
+	OpKinds          map[string]int
+	ErrOps           int
 }
 
 const hPool = "p"
